@@ -83,12 +83,17 @@ async def main(with_trigger):
     async with SCase(CASE, ctx) as sc:
         assert not sc.rejected, sc.rejected
         sim = sc.sim
-        await commands.run_cmd(commands.hold(sim.schd, ['2/foo']))
+
+        async def cmd(gen):
+            """run a command as Scheduler.process_command_queue does"""
+            await commands.run_cmd(gen)
+            sim.schd.is_updated = True
+        await cmd(commands.hold(sim.schd, ['2/foo']))
         await sc.drain()
         if with_trigger:
-            await commands.run_cmd(
+            await cmd(
                 commands.force_trigger_tasks(sim.schd, ['1/bar'], []))
-        await commands.run_cmd(commands.release_hold_point(sim.schd))
+        await cmd(commands.release_hold_point(sim.schd))
         await sc.drain()
         return sim.crashed, sim.shutdown_reason, [
             f'{c}/{n}/{sn:02d}' for c, n, sn in sim.journal]
